@@ -172,3 +172,437 @@ def resolve(root, n, depth=3):
         n = peel(init)
         depth -= 1
     return n
+
+
+def _pat_wild(p):
+    p = strip_ref(p)
+    if p.get("k") == "Wild":
+        return True
+    return p.get("k") == "Leaf" and all(_pat_wild(x["p"]) for x in p["sub"])
+
+
+def _has_err_return(n):
+    from facts import adt_is
+    return n is not None and any(x.get("k") == "Return" and x.get("value") is not None and adt_is(peel(x["value"]), "Result", "Err") for x in walk(n))
+
+
+def _bool_match(n):
+    """`matches!(X, P)` = match X { P => true, _ => false }: returns (X, [P arms' patterns]) or None."""
+    n = peel(n)
+    if n.get("k") != "Match":
+        return None
+    yes = []
+    for a in n["arms"]:
+        v = lit(peel(a["body"]))
+        if v is None or v[0] != "bool" or a.get("guard"):
+            return None
+        if v[1]:
+            yes.append(a["pat"])
+        elif not _pat_wild(a["pat"]):
+            return None
+    return n["scrut"], yes
+
+
+def filters(root):
+    """Operand filters `only these shapes of X continue, anything else returns Err`, in the forms
+         match X { P.. => .., _ => return Err(..) }
+         if !matches!(X, P..) { return Err(..) }      /   if matches!(X, P..) {..} else { return Err(..) }
+         let P = X else { return Err(..) };           /   if let P = X {..} else { return Err(..) }
+    -> [(X, [allowed patterns], node)]"""
+    out = []
+    for n in walk(root):
+        k = n.get("k")
+        if k == "Match":
+            wild = [a for a in n["arms"] if _pat_wild(a["pat"]) and not a.get("guard")]
+            if wild and _has_err_return(wild[-1]["body"]) and wild[-1] is n["arms"][-1]:
+                out.append((n["scrut"], [a["pat"] for a in n["arms"] if a is not wild[-1]], n))
+        elif k == "If":
+            c = peel(n["cond"])
+            if c.get("k") == "Unary" and c["op"] == "Not" and _bool_match(c["arg"]) and _has_err_return(n["then"]):
+                x, pats = _bool_match(c["arg"])
+                out.append((x, pats, n))
+            elif _bool_match(c) and _has_err_return(n.get("else")):
+                x, pats = _bool_match(c)
+                out.append((x, pats, n))
+            elif c.get("k") == "LetCond" and _has_err_return(n.get("else")):
+                out.append((c["arg"], [c["pat"]], n))
+        elif k == "Block":
+            for s in n["stmts"]:
+                if s["k"] == "Let" and s.get("else") is not None and s.get("init") is not None and _has_err_return(s["else"]):
+                    out.append((s["init"], [s["pat"]], s))
+    return out
+
+
+def result_leaves(body):
+    """[(leaf, path)] of every value a function body can produce: the tail expression's leaves (through blocks, ifs,
+    matches) and the leaves of every `return` value (closures excluded)."""
+    out = []
+
+    def leaves(n, path):
+        m = n
+        k = m.get("k")
+        if k == "Block":
+            if m.get("expr"):
+                leaves(m["expr"], path + [m])
+            elif m["stmts"] and m["stmts"][-1]["k"] == "Expr":
+                leaves(m["stmts"][-1]["e"], path + [m])
+            return
+        if k == "If":
+            leaves(m["then"], path + [m])
+            if m.get("else"):
+                leaves(m["else"], path + [m])
+            return
+        if k == "Match":
+            for a in m["arms"]:
+                leaves(a["body"], path + [m])
+            return
+        if k == "Return":
+            return
+        out.append((m, path))
+
+    leaves(body, [])
+    for n, path in walk_with_path(body):
+        if n.get("k") == "Return" and n.get("value") is not None and not any(p.get("k") == "Closure" for p in path):
+            leaves(n["value"], list(path) + [n])
+    return out
+
+
+def delegates(f, target="Object::find", via=None):
+    """Every value `f` produces is `target(<self or the payload of self matched as `via`>, <2nd parameter unchanged>)`;
+    when `via` is given the only other result is None, produced where self did not match `via`.  -> (ok, detail)"""
+    params = [strip_ref(p["pat"]) for p in f.thir["params"]]
+    sid, kid = params[0].get("id"), params[1].get("id")
+    ls = result_leaves(f.body)
+    nfind = nnone = 0
+    for leaf, path in ls:
+        l = peel(leaf)
+        if call_is(l, target) and len(l["args"]) == 2 and var_id(l["args"][1]) == kid:
+            recv = var_id(l["args"][0])
+            if via is None:
+                if recv != sid:
+                    return False, "receiver is not self: " + show(l)
+            else:
+                ok = False
+                for e in context(path, leaf):
+                    pat, scrut = (e[1], e[2]) if e[0] == "arm" else (None, None)
+                    if e[0] == "if" and e[2] and peel(e[1]).get("k") == "LetCond":
+                        pat, scrut = peel(e[1])["pat"], peel(e[1])["arg"]
+                    if pat is not None and var_id(scrut) == sid and variant_of(pat) and variant_of(pat)[1] == via and any(b[1] == recv for b in pat_binds(pat)):
+                        ok = True
+                if not ok:
+                    # let-else form: `let Value::Object(o) = self else { return None }`
+                    for n in walk(f.body):
+                        if n.get("k") == "Block":
+                            for s in n["stmts"]:
+                                if s["k"] == "Let" and s.get("else") is not None and var_id(s.get("init")) == sid and variant_of(s["pat"]) and variant_of(s["pat"])[1] == via and any(b[1] == recv for b in pat_binds(s["pat"])):
+                                    ok = True
+                if not ok:
+                    return False, "receiver is not the %s payload of self: %s" % (via, show(l))
+            nfind += 1
+        elif via is not None and l.get("k") == "Adt" and l["adt"].endswith("Option") and l["variant"] == "None":
+            # must not be reachable when self matched `via`
+            for e in context(path, leaf):
+                if e[0] == "arm" and var_id(e[2]) == sid and variant_of(e[1]) and variant_of(e[1])[1] == via:
+                    return False, "None produced for an object"
+                if e[0] == "if" and e[2] and peel(e[1]).get("k") == "LetCond" and var_id(peel(e[1])["arg"]) == sid:
+                    return False, "None produced for an object"
+            nnone += 1
+        else:
+            return False, "other result: " + show(l)[:80]
+    if nfind != 1 or (via is not None and nnone != 1) or (via is None and nnone):
+        return False, "%d delegating results, %d None results" % (nfind, nnone)
+    return True, "%d results" % len(ls)
+
+
+def loop_over(loop):
+    """A `for` over the elements of a vector/slice variable, optionally through .iter() and .enumerate():
+    -> (id of the vector variable or None, element pattern, id of the enumerate index or None)"""
+    it = peel(loop["iter"])
+    pat = loop["pat"]
+    idx = None
+    if call_is(it, "Iterator::enumerate"):
+        it = peel(it["args"][0])
+        p = strip_ref(pat)
+        if p.get("k") == "Leaf" and len(p["sub"]) == 2 and strip_ref(p["sub"][0]["p"]).get("k") == "Bind":
+            idx = strip_ref(p["sub"][0]["p"])["id"]
+            pat = p["sub"][1]["p"]
+        else:
+            return None, pat, None
+    while call_is(it, "::iter") or call_is(it, "IntoIterator::into_iter") or call_is(it, "Deref::deref"):
+        it = peel(it["args"][0])
+    return var_id(it), pat, idx
+
+
+def _unblock_block(n):
+    n = peel(n)
+    while n.get("k") == "Block" and not n["stmts"] and n.get("expr") and peel(n["expr"]).get("k") == "Block":
+        n = peel(n["expr"])
+    return n
+
+
+def counter_of(fn_body, loop, ivar=None, exact=True):
+    """The variable that holds the number of completed iterations of `loop`:
+       - the index bound by `.enumerate()`, or
+       - a variable initialised `let mut i = 0` (outside the loop), written only by `i += 1` inside this loop, where every
+         increment is the last statement of the loop body or is directly followed by `continue` (at most one per iteration);
+         with exact=True additionally every `continue` is directly preceded by an increment and the body ends with one
+         (exactly one per iteration).
+    -> {"kind", "id", "continues"} or None"""
+    _, _, eidx = loop_over(loop)
+    nconts = len([x for x in walk(loop["body"]) if x.get("k") == "Continue"])
+    if eidx is not None and (ivar is None or ivar == eidx):
+        written = [x for x in walk(fn_body) if x.get("k") in ("Assign", "AssignOp") and var_id(x["lhs"]) == eidx]
+        return None if written else {"kind": "enumerate", "id": eidx, "continues": nconts}
+    cands = []
+    for x in walk(fn_body):
+        if x.get("k") == "Block":
+            for st in x["stmts"]:
+                if st["k"] == "Let" and st["pat"].get("k") == "Bind" and lit(st.get("init")) == ("i", 0) and not contains(loop, st):
+                    if ivar is None or st["pat"]["id"] == ivar:
+                        cands.append(st["pat"]["id"])
+    for cid in cands:
+        if len([1 for x in walk(fn_body) if x.get("k") == "Block" for st in x["stmts"] if st["k"] == "Let" and any(b[1] == cid for b in pat_binds(st["pat"]))]) != 1:
+            continue
+        mods = [x for x in walk(fn_body) if x.get("k") in ("Assign", "AssignOp") and var_id(x["lhs"]) == cid]
+        if not mods or not all(x.get("k") == "AssignOp" and x["op"] == "AddAssign" and lit(x["rhs"]) == ("i", 1) and contains(loop["body"], x) for x in mods):
+            continue
+        # no increment inside a nested loop or closure
+        nested = False
+        for n, path in walk_with_path(loop["body"]):
+            if any(n is m for m in mods) and any(p.get("k") in ("For", "Loop", "Closure") for p in path):
+                nested = True
+        if nested:
+            continue
+        ok = True
+        top = _unblock_block(loop["body"])
+        is_mod = lambda e: e is not None and any(peel(e) is m for m in mods)
+        for blk in walk(loop["body"]):
+            if blk.get("k") != "Block":
+                continue
+            st = blk["stmts"]
+            for i, x in enumerate(st):
+                if x["k"] == "Expr" and is_mod(x["e"]):
+                    last_of_loop = blk is top and i == len(st) - 1 and not blk.get("expr")
+                    nxt = st[i + 1]["e"] if i + 1 < len(st) and st[i + 1]["k"] == "Expr" else blk.get("expr") if i + 1 == len(st) else None
+                    if not (last_of_loop or (nxt is not None and peel(nxt).get("k") == "Continue")):
+                        ok = False
+            if exact:
+                for i, x in enumerate(st):
+                    if x["k"] == "Expr" and peel(x["e"]).get("k") == "Continue":
+                        if not (i > 0 and st[i - 1]["k"] == "Expr" and is_mod(st[i - 1]["e"])):
+                            ok = False
+                if blk.get("expr") is not None and peel(blk["expr"]).get("k") == "Continue":
+                    if not (st and st[-1]["k"] == "Expr" and is_mod(st[-1]["e"])):
+                        ok = False
+        if exact:
+            if not (top.get("k") == "Block" and top["stmts"] and not top.get("expr") and top["stmts"][-1]["k"] == "Expr" and is_mod(top["stmts"][-1]["e"])):
+                ok = False
+            # every continue sits in a block position examined above (not e.g. as a match arm expression)
+            seen = 0
+            for blk in walk(loop["body"]):
+                if blk.get("k") == "Block":
+                    seen += len([1 for x in blk["stmts"] if x["k"] == "Expr" and peel(x["e"]).get("k") == "Continue"])
+                    seen += 1 if blk.get("expr") is not None and peel(blk["expr"]).get("k") == "Continue" else 0
+            if seen != nconts or len(mods) != nconts + 1:
+                ok = False
+        if ok:
+            return {"kind": "manual", "id": cid, "continues": nconts}
+    return None
+
+
+def base_var(n, root=None):
+    """id of the variable behind `&v`, `&*v`, `v.deref()`, `v.as_slice()`; with `root`, also through `let w = <such a view of v>`"""
+    n = peel(n)
+    for _ in range(6):
+        while isinstance(n, dict) and (call_is(n, "Deref::deref") or call_is(n, "::as_slice") or call_is(n, "::as_ref")):
+            n = peel(n["args"][0])
+        if root is None or not isinstance(n, dict) or n.get("k") != "Var":
+            break
+        init = let_init(root, n["id"])
+        if init is None or not (call_is(peel(init), "Deref::deref") or call_is(peel(init), "::as_slice") or call_is(peel(init), "::as_ref") or peel(init).get("k") == "Var"):
+            break
+        n = peel(init)
+    return var_id(n)
+
+
+def _range_upto(it, root):
+    """`0..N` -> resolved N, else None"""
+    it = peel(it)
+    if call_is(it, "IntoIterator::into_iter"):
+        it = peel(it["args"][0])
+    if it.get("k") == "Adt" and it["adt"].endswith("Range") and it.get("variant") in ("Range", None):
+        fm = {f["name"]: f["e"] for f in it["fields"]}
+        if lit(fm.get("start")) == ("i", 0) and "end" in fm:
+            return resolve(root, fm["end"])
+    return None
+
+
+def _len_term(n, root):
+    n = resolve(root, n)
+    if call_is(n, "::len") and len(n["args"]) == 1:
+        b = base_var(n["args"][0])
+        if b is not None:
+            return ("len", b)
+    return None
+
+
+def sym_len(root, vid, _depth=0):
+    """Symbolic length of the Vec variable `vid` in function body `root`, when it is visibly fixed at construction:
+         let mut v = Vec::with_capacity(_) | Vec::new();  for _ in 0..N { v.push(X) }      (the only push, unconditional)
+         let v = (0..N).map(|_| X).collect()   /   let v = vec![X; N]   /   let v = { ..; w } with w such a vector
+       and `v` is afterwards mutably borrowed only for element assignment (v[i] = ..).
+       -> ("len", id of the vector whose length N is, the element expression X) or None"""
+    lets = [(s, blk) for blk in walk(root) if blk.get("k") == "Block" for s in blk["stmts"] if s["k"] == "Let" and strip_ref(s["pat"]).get("k") == "Bind" and strip_ref(s["pat"])["id"] == vid]
+    if len(lets) != 1 or lets[0][0].get("init") is None or _depth > 3:
+        return None
+    let, blk = lets[0]
+    init = peel(let["init"])
+    term = None
+    init_pushes = []
+    chain = []
+    b = init
+    while b.get("k") == "Block" and b.get("expr") is not None:
+        chain.append(b)
+        b = peel(b["expr"])
+    if chain and var_id(b) is not None:
+        # a block that builds the vector and yields it (normalised `.collect()`, inlined constructor helper)
+        inner = var_id(b)
+        if any(s["k"] == "Let" and strip_ref(s["pat"]).get("k") == "Bind" and strip_ref(s["pat"])["id"] == inner for blk2 in chain for s in blk2["stmts"]):
+            term = sym_len(root, inner, _depth + 1)
+    elif call_is(init, "::from_elem") and len(init["args"]) == 2:
+        t = _len_term(init["args"][1], root)
+        term = t + (init["args"][0],) if t else None
+    elif call_is(init, "::with_capacity") or call_is(init, "::new"):
+        pushes = [(x, p) for x, p in walk_with_path(root) if call_is(x, "::push") and base_var(x["args"][0]) == vid]
+        if len(pushes) == 1:
+            x, p = pushes[0]
+            fors = [a for a in p if a.get("k") in ("For", "Loop", "Closure")]
+            if fors and fors[-1].get("k") == "For" and _unconditional(fors[-1]["body"], x) and not contains(fors[-1], let):
+                n = _range_upto(fors[-1]["iter"], root)
+                t = _len_term(n, root) if n is not None else None
+                if t is None and n is None:
+                    src, _, _ = loop_over(fors[-1])
+                    t = ("len", src) if src is not None else None
+                # the loop itself runs once: it is not nested in another loop after the let
+                outer = [a for a in fors[:-1] if not contains(a, let)]
+                if t is not None and not outer:
+                    term = t + (x["args"][1],)
+                    init_pushes = [x]
+    if term is None:
+        return None
+    # later mutable uses: element assignment only
+    for n, path in walk_with_path(root):
+        if n.get("k") == "Borrow" and n.get("mut") and var_id(n["arg"]) == vid:
+            par = path[-1] if path else None
+            if par is not None and (call_is(par, "IndexMut::index_mut") or any(par is x for x in init_pushes)):
+                continue
+            return None
+        if n.get("k") == "Assign" and var_id(n["lhs"]) == vid:
+            return None
+    return term
+
+
+def _unconditional(body, node):
+    """`node` is evaluated exactly once whenever `body` runs to its end: it sits in the top-level statement list (or tail)
+    of `body`, not under an if/match/loop/closure, and no statement before it can leave the body early."""
+    b = peel(body)
+    while b.get("k") == "Block" and not b["stmts"] and b.get("expr") is not None and peel(b["expr"]).get("k") == "Block":
+        b = peel(b["expr"])
+    items = [s["e"] if s["k"] == "Expr" else s.get("init") for s in b["stmts"]] + ([b["expr"]] if b.get("expr") is not None else []) if b.get("k") == "Block" else [b]
+    for e in items:
+        if e is None:
+            continue
+        if peel(e) is node:
+            return True
+        if any(x.get("k") in ("Return", "Break", "Continue", "Try") for x in walk(e)):
+            return False
+    return False
+
+
+def all_patterns(root):
+    """every pattern in a body: match arms, `if let`/`while let` conditions, let statements, for loops"""
+    out = []
+    for n in walk(root):
+        k = n.get("k")
+        if k == "Match":
+            out.extend(a["pat"] for a in n["arms"])
+        elif k == "LetCond":
+            out.append(n["pat"])
+        elif k == "For":
+            out.append(n["pat"])
+        elif k == "Block":
+            out.extend(s["pat"] for s in n["stmts"] if s["k"] == "Let")
+    return out
+
+
+PURE_SUFFIX = ("Deref::deref", "::as_slice", "::as_str", "::len", "Match::pattern", "Match::start", "Match::end", "::is_empty", "PatternID::as_u64", "PatternID::as_usize")
+
+
+def inline_pure_lets(body, params=()):
+    """A copy of `body` in which every `let x = E;` with x immutable and E a *pure* expression over immutable variables
+    (E built from len()/is_empty()/Match::{pattern,start,end}/as_u64, shared borrows, literals and immutable bindings not of
+    `&mut` type) is removed and x replaced by E.  Hoisting or un-hoisting such a let does not change behaviour, so rules that
+    compare the shape of conditions look at this form."""
+    import facts as _f
+    modes = {}
+    for p in list(params) + all_patterns(body):
+        for pp in _walk_pat(p):
+            if pp.get("k") == "Bind":
+                modes[pp["id"]] = (pp.get("mode", ""), pp.get("ty", ""))
+    written = {var_id(x["lhs"]) for x in walk(body) if x.get("k") in ("Assign", "AssignOp")}
+
+    def immut(vid):
+        m = modes.get(vid)
+        return m is not None and m[0].endswith("Not)") and not m[1].startswith("&mut") and vid not in written
+
+    def pure(e):
+        k = e.get("k")
+        if k in ("Var", "Upvar"):
+            return immut(e["id"])
+        if k in ("Borrow",):
+            return not e.get("mut") and pure(e["arg"])
+        if k in ("Deref", "Coerce", "Cast", "ByUse"):
+            return pure(e["arg"])
+        if k == "Lit":
+            return True
+        if k == "Call":
+            return any((e.get("fn") or "").endswith(s) for s in PURE_SUFFIX) and all(pure(a) for a in e["args"])
+        return False
+
+    def go(n):
+        if isinstance(n, list):
+            return [go(x) for x in n]
+        if not isinstance(n, dict):
+            return n
+        if n.get("k") == "Block":
+            stmts = []
+            m = {}
+            rest = {"stmts": list(n["stmts"]), "expr": n.get("expr")}
+            out_stmts = []
+            for s in n["stmts"]:
+                s2 = _f._subst(s, m) if m else s
+                p = strip_ref(s2["pat"]) if s2["k"] == "Let" else None
+                if s2["k"] == "Let" and p.get("k") == "Bind" and not p.get("sub") and s2.get("else") is None and s2.get("init") is not None \
+                        and p.get("mode", "").endswith("Not)") and p["id"] not in written and pure(s2["init"]):
+                    m[p["id"]] = s2["init"]
+                    continue
+                out_stmts.append(s2)
+            out = dict(n)
+            out["stmts"] = [go(s) for s in out_stmts]
+            out["expr"] = go(_f._subst(n["expr"], m)) if n.get("expr") is not None else None
+            return out
+        return {k: (v if k == "pat" else go(v)) for k, v in n.items()}
+
+    return go(body)
+
+
+def _walk_pat(p):
+    p0 = strip_ref(p)
+    yield p0
+    for s in p0.get("sub") or [] if isinstance(p0.get("sub"), list) else []:
+        if isinstance(s, dict) and "p" in s:
+            yield from _walk_pat(s["p"])
+    if isinstance(p0.get("sub"), dict):
+        yield from _walk_pat(p0["sub"])
+    for s in p0.get("pats") or []:
+        yield from _walk_pat(s)
